@@ -447,7 +447,12 @@ def main(argv):
         if a.replay:
             return mod.replay(ctx, a.replay)
         return mod.run(ctx)
-    except Undecided as e:
+    except Exception as e:
+        # Undecided (possibly the class of a second import of this module by a property file) and
+        # any unexpected failure of the machinery itself: never a violation, exit 2
+        if type(e).__name__ != "Undecided":
+            import traceback
+            traceback.print_exc()
         print("UNDECIDED %s: %s" % (a.id, e))
         if ctx.violations and not a.replay:
             # a later stage failed for infrastructure reasons, but confirmed violations were already
